@@ -89,6 +89,20 @@ theorem C15_accumulation_fails (d y0 : List Rat) (tol : Rat) (hlen : d.length = 
   right
   exact Rat.not_lt.mpr hd
 
+/-- ... and EXACTLY (F-C15-4): under the absolute norm constant accumulation is reported as failure if and only if the
+drift per search step is at least the tolerance, `‖d‖ ≥ tol`; a slower drift (dx/dt = 2⁻³⁰ at tolerance 1e-6) meets the
+criterion at the first step and is reported as a steady state although it never stops moving. -/
+theorem C15_accumulation_fails_iff (d y0 : List Rat) (tol : Rat) (hlen : d.length = y0.length) (ht : 0 < tol) :
+    ssRun Gen.copies Gen.checks (fun y => List.zipWith (· + ·) y d) (fun _ => true) (smallAbs tol) Gen.maxSteps y0
+      = .noSteadyState ↔ tol * tol ≤ normSq d := by
+  constructor
+  · intro h
+    have h0 := ((C15_no_false_success _ _ _ y0).mp h 0 (by decide)).2
+    simp only [iter, smallAbs, vsub_add_self _ d hlen.symm, ht, decide_true, Bool.true_and,
+      decide_eq_false_iff_not] at h0
+    exact Rat.not_lt.mp h0
+  · exact C15_accumulation_fails d y0 tol hlen
+
 /-- F-C15-2, EXACTLY: one variable that accumulates for ever (`y ↦ y + d` per search step, d > 0, from `y0 > 0`: NO steady
 state) under the RELATIVE criterion is reported as failure if and only if the relative step is still at or above the
 tolerance at the LAST comparison of the budget, `tol·(y0 + (max_steps − 1)·d) ≤ d`.  This is the hypothesis that the
